@@ -141,10 +141,13 @@ func c04Alphabet(quick bool) []SeqOp {
 		op(0, U(0, 1, 1)),
 		op(0, hapi.Cmd{Type: 2, Key: 1, Id: 9, Flag: 0x01}),
 		op(0, hapi.Cmd{Type: 2, Key: 1, Id: 2, Flag: 0x02}),
+		op(0, L(0, 1, 1, 0, 4, 1, 1)),                      // re-enterable holder on a counting key (depth 2 fills it)
+		op(0, hapi.Cmd{Type: 2, Key: 1, Id: 1, Rcount: 1}), // releases one level: a slot becomes free although the holder stays
+		op(1, L(0, 1, 8, 6, 4, 1, 0)),                      // fits into that slot
 		tick(1*sec), tick(3*sec),
 	)
 	if !quick {
-		a = append(a, op(1, withTF(L(0, 1, 8, 6, 4, 0, 5), 0x10)), op(0, U(0, 1, 4)), op(1, L(0, 1, 1, 6, 4, 1, 0)))
+		a = append(a, op(1, withTF(L(0, 1, 9, 6, 4, 0, 5), 0x10)), op(0, U(0, 1, 4)), op(1, L(0, 1, 1, 6, 4, 1, 0)))
 	}
 	return a
 }
